@@ -806,6 +806,12 @@ impl LineBuf {
 		self.update_graphemes();
 	}
 	pub fn drain(&mut self, start: usize, end: usize) -> String {
+		// A range recorded before the buffer shrank (e.g. a repeated block delete) may reach past the end
+		let len = self.grapheme_indices().len();
+		let (start,end) = (start.min(len),end.min(len));
+		if start >= end {
+			return String::new()
+		}
 		let drained = if end == self.grapheme_indices().len() {
 			if start == self.grapheme_indices().len() {
 				return String::new()
